@@ -29,7 +29,14 @@ fn fletter(rng: &mut Rng, l: u64) -> V {
         1 => V::text("none"),
         2 => V::text("tpm"),
         _ => {
-            let n = rng.usize(30);
+            // arbitrary identifiers of any length (WebAuthn does not bound them on the wire)
+            let n = match rng.below(6) {
+                0 => 32,
+                1 => 33,
+                2 => 64 + rng.usize(64),
+                3 => 255 + rng.usize(3),
+                _ => rng.usize(30),
+            };
             let t = rng.text_bytes(n);
             if t == "packed" || t == "none" {
                 V::text("zz")
@@ -148,6 +155,42 @@ pub fn run(rep: &mut Rep) {
         }
     }
     rep.count("format_lists_enumerated", if rep.shard == 0 { n_f } else { 0 });
+    // (c0) very long parameter lists ("of any length"): hundreds of unknown entries around the known ones
+    let mut long_case = 0u64;
+    for &n_unknown in &[100usize, 254, 255, 256, 257, 300, 330] {
+        for pos in 0..3 {
+            long_case += 1;
+            case += 1;
+            if !rep.mine(case) {
+                continue;
+            }
+            let mut rng = Rng::derive(seed, "c14-long", long_case);
+            let mut list: Vec<V> = (0..n_unknown)
+                .map(|i| match i % 3 {
+                    0 => param(-257 - (i as i128 % 7), "public-key"),
+                    1 => param(-7, ""),
+                    _ => param((rng.u64() as i16) as i128 * 3 + 1000, "pk"),
+                })
+                .collect();
+            let at = match pos {
+                0 => 0,
+                1 => n_unknown / 2,
+                _ => n_unknown,
+            };
+            list.insert(at, param(-8, "public-key"));
+            list.push(param(-7, "public-key"));
+            if !rep.begin("params-very-long") {
+                continue;
+            }
+            rep.count_max("max_param_list_len", list.len() as u64);
+            judge_lists(rep, &ctx, Some(&list), None, "very-long");
+            // and an equally long attestation-format list
+            let mut fl: Vec<V> = (0..n_unknown).map(|i| { let l = 2 + (i as u64 % 2); fletter(&mut rng, l) }).collect();
+            fl.insert(at, V::text("none"));
+            fl.push(V::text("packed"));
+            judge_lists(rep, &ctx, None, Some(&fl), "very-long-formats");
+        }
+    }
     // (c) random lists up to 64 entries, algs across i32, type strings 0..=32 bytes
     let n = rep.n(4000, 400_000);
     for _ in 0..n * rep.nshards {
